@@ -32,7 +32,7 @@ def pExpr : Nat → List Char → Option (Expr × List Char)
       | _, _ => none
     | 'I' :: '(' :: r =>
       match r.dropWhile (· ≠ ')') with
-      | ')' :: r' => some (.ident (String.mk (r.takeWhile (· ≠ ')'))), r')
+      | ')' :: r' => some (.ident (String.ofList (r.takeWhile (· ≠ ')'))), r')
       | _ => none
     | 'D' :: '(' :: r =>
       match pExpr n r with
@@ -60,7 +60,7 @@ def pStmt (s : String) : Option Stmt :=
   match cs.dropWhile (· ≠ '=') with
   | '=' :: r =>
     match pExpr (r.length + 1) r with
-    | some (e, []) => some ⟨String.mk name, e⟩
+    | some (e, []) => some ⟨String.ofList name, e⟩
     | _ => none
   | _ => none
 
